@@ -119,6 +119,15 @@ func violSig(v *workerlib.Violation) string {
 
 // sigsOf returns the set of violation-class signatures a process exhibited.
 func sigsOf(e *Env, pr *ProcResult) (map[string]bool, []raceReport, bool) {
+	if pr.sigs != nil {
+		return pr.sigs, pr.reports, pr.harnessOnly
+	}
+	sigs, reports, h := sigsOfUncached(e, pr)
+	pr.sigs, pr.reports, pr.harnessOnly = sigs, reports, h
+	return sigs, reports, h
+}
+
+func sigsOfUncached(e *Env, pr *ProcResult) (map[string]bool, []raceReport, bool) {
 	sigs := map[string]bool{}
 	var reports []raceReport
 	harnessOnly := false
@@ -594,25 +603,26 @@ func explicitPrefix(e *Env, fv *foundViolation) []workerlib.ExplicitRun {
 // processViolation confirms, minimises and writes the replay file. It returns
 // the path, or "" if the violation could not be reproduced (harness problem).
 func processViolation(e *Env, c *Check, fv *foundViolation, limit time.Duration) (string, string) {
-	sigs, reports, _ := sigsOf(e, fv.Proc)
 	sig := violSig(fv.V)
-	if fv.V.Kind == "race" {
-		sig = "race"
-		for s := range sigs {
+	pickRaceSig := func(pr *ProcResult) string {
+		sg, _, _ := sigsOf(e, pr)
+		var all []string
+		for s := range sg {
 			if strings.HasPrefix(s, "race/") {
-				sig = s
-				break
+				all = append(all, s)
 			}
 		}
+		sort.Strings(all)
+		if len(all) > 0 {
+			return all[0]
+		}
+		return "race"
+	}
+	if fv.V.Kind == "race" {
+		sig = "race"
 	}
 	session := []workerlib.ExplicitRun{*fv.V.Run}
 	ok, pr := reproduces(e, session, sig)
-	if !ok && fv.V.Kind == "race" {
-		// signature function pair may vary with the interleaving; fall back to the class "race"
-		if r2, _ := reproduces(e, session, "race"); r2 {
-			ok, sig = true, "race"
-		}
-	}
 	how := "single run in a fresh process"
 	if !ok {
 		// the failure may need the earlier runs of that process (library state carried over)
@@ -621,12 +631,11 @@ func processViolation(e *Env, c *Check, fv *foundViolation, limit time.Duration)
 			if ok2, pr2 := reproduces(e, full, sig); ok2 {
 				ok, pr, session = true, pr2, full
 				how = fmt.Sprintf("needs process history: %d runs", len(full))
-			} else if fv.V.Kind == "race" {
-				if ok3, pr3 := reproduces(e, full, "race"); ok3 {
-					ok, pr, session, sig = true, pr3, full, "race"
-				}
 			}
 		}
+	}
+	if ok && fv.V.Kind == "race" {
+		sig = pickRaceSig(pr)
 	}
 	_ = pr
 	if !ok {
@@ -673,8 +682,6 @@ func processViolation(e *Env, c *Check, fv *foundViolation, limit time.Duration)
 				break
 			}
 		}
-	} else if len(reports) > 0 && fv.V.Kind == "race" {
-		rp.RaceReport = reports[0].Text
 	}
 	rp.Readable = readable(small)
 	switch fv.V.Kind {
@@ -689,7 +696,7 @@ func processViolation(e *Env, c *Check, fv *foundViolation, limit time.Duration)
 }
 
 func writeReplay(e *Env, rp *Replay) string {
-	dir := filepath.Join(e.VerifDir, "replays")
+	dir := filepath.Join(e.OutDir, "replays")
 	os.MkdirAll(dir, 0o755)
 	b, _ := json.MarshalIndent(rp, "", " ")
 	h := simrt.Mix(uint64(len(b)), hashStr(string(b)), 3)
